@@ -16,15 +16,17 @@ def atttyp : Ty → Nat
 
 def isIntLetter (l : Nat) : Bool := l = cE || l = cI || l = cL || l = cU
 
-/-- `int.to_bytes(size, "little", signed=signed)`; OverflowError when out of range -/
+/-- `int.to_bytes(size, "little", signed=signed)`; OverflowError when out of range.
+    Signed values are stored in two's complement: a negative `v` as `v + 2^(8·size)`. -/
 def intToBytes (v : Int) (size : Nat) (signed : Bool) : R Bytes :=
   if signed then
     if size = 0 then (if v = 0 then .ok [] else .error .overflowE)
-    else if -(2 ^ (8 * size - 1) : Int) ≤ v ∧ v < (2 ^ (8 * size - 1) : Int) then
-      .ok (toLE size (v % (2 ^ (8 * size) : Int)).toNat)
-    else .error .overflowE
+    else
+      if -((2 ^ (8 * size - 1) : Nat) : Int) ≤ v ∧ v < ((2 ^ (8 * size - 1) : Nat) : Int) then
+        .ok (toLE size (if v < 0 then (v + ((2 * 2 ^ (8 * size - 1) : Nat) : Int)).toNat else v.toNat))
+      else .error .overflowE
   else
-    if 0 ≤ v ∧ v < (2 ^ (8 * size) : Int) then .ok (toLE size v.toNat) else .error .overflowE
+    if 0 ≤ v ∧ v < ((256 ^ size : Nat) : Int) then .ok (toLE size v.toNat) else .error .overflowE
 
 /-- the `for i in range(attsiz(att)): valb += val[i].to_bytes(1, …)` loop for type `A` -/
 def arrayToBytes : Nat → List (Option Int) → R Bytes
